@@ -14,6 +14,8 @@ func init() {
 		"(1) SCAN: the decision tables of RequestMatcher.Match and ResponseMatcher.Match loop bodies (exhaustive constant propagation over the CFG) equal the first-match reference; (2) SENTINEL: OR/AND/mask algebra of both DNS index families, and the OR/AND names agree between the three String tables used by the rule lowering; " +
 		"(3) LOWER: every DNS emitter follows the OR-except-last naming, registered functions are the documented ones, fallbacks refuse must/mark; (4) REJECT: in the query handler every cache lookup is dominated by request routing and by the reject test, whose true edge drops the cached family and answers with an answer-less reply; " +
 		"(5) REASK: every recursive re-ask passes a strictly larger depth and is dominated by the depth bound test whose true edge returns an error; the bound is a positive constant; (6) RESP: the response action switch handles accept/reject and treats everything else as a re-ask with the selected upstream; an answer from an unregistered (as-is) upstream is matched as the as-is sentinel. " +
+		"(7) PARSENUM: numeric rule values (qtype codes) are parsed with base 0/10 and a bit size no wider than the type they are converted to. " +
+		"(7) PARSENUM: numeric rule values (qtype codes) are parsed with base 0/10 and a bit size no wider than the type they are converted to. " +
 		"Not decided: name matching on values (C11), IP containment (C12), upstream behaviour."})
 }
 
@@ -149,6 +151,7 @@ func runC07(c *Ctx) {
 	c07Reject(c)
 	c07Reask(c)
 	c07Resp(c)
+	c.R.Floor("PARSENUM", parseNumSites(c, "PARSENUM", []string{"component/dns"}, func(f string) bool { return f == "function_parser.go" }), 1)
 }
 
 func c07Reject(c *Ctx) {
